@@ -1141,6 +1141,11 @@ func (c *contextWriter) Run(ctx context.Context, input []byte) ([]byte, error) {
 		return nil, nil
 	}
 
+	// only a CALL carries the execution context that says on whose behalf the write is made
+	if c.ctx == nil {
+		return nil, errors.New("aspect context write without execution context")
+	}
+
 	key, err := loadParamBytes(input, 0)
 	if err != nil {
 		return nil, err
